@@ -91,6 +91,8 @@ type Explorer struct {
 	st         Stats
 	curCase    string
 	shiftBuf   map[int][]byte
+	Light      bool  // not all pairs: q in {p+1, n} and a seeded sample (explicit in the evidence)
+	Seed       int64
 	base       int // start offset of the reference run (observations are shifted by c.Start-base)
 }
 
@@ -103,6 +105,15 @@ func (e *Explorer) report(prop, what string, c Cfg, in []byte, cuts []int, sig, 
 	}
 	e.viol = append(e.viol, Violation{Prop: prop, What: what, Cfg: c, Input: toInts(in), Text: fmt.Sprintf("%q", in),
 		Cuts: cuts, Detail: detail, Sig: sig})
+}
+
+// pick: seeded pseudo-random choice of about 3 extra q per p in light mode
+func (e *Explorer) pick(p, q, n int) bool {
+	h := uint64(p)*0x9E3779B97F4A7C15 ^ uint64(q)*0xC2B2AE3D27D4EB4F ^ uint64(e.Seed)*0x165667B19E3779F9
+	h ^= h >> 29
+	h *= 0xBF58476D1CE4E5B9
+	h ^= h >> 32
+	return h%uint64(n-p+1) < 3
 }
 
 // exact-capacity copy so that any access past the visible prefix is a real out-of-range
@@ -201,6 +212,9 @@ func (e *Explorer) Input(c Cfg, text []byte) {
 				continue
 			}
 			for q := p + 1; q <= n; q++ {
+				if e.Light && q != p+1 && q != n && !e.pick(p, q, n) {
+					continue
+				}
 				x := NewObj(c)
 				o1, v1 := Call(x, prefixOf(buf, p), c.Start)
 				if v1 != "more" || o1 != F[p].offs {
